@@ -9,7 +9,8 @@
    Reading guide.  `jump_effect s src i tg jctx k st` is what an accepted jump from source i (row src) to target tg
    does to the row st of stage k: target -> jump_tgt_fn (re-armed, bypass flag, count), source -> jump_src_fn
    (re-armed if backward, SUCCEEDED if forward), members of closed_downstream tg -> reset_for_retry, NOT_STARTED members
-   of the skipped set -> to_skipped, every other stage -> unchanged.
+   of the skipped set -> to_skipped, every other stage -> unchanged; and every synthetic child (before / after /
+   on-failure stage) of a re-armed stage -> reset_for_retry (JumpToStageHandler._synthetic_reset_mutations).
    `cnt s i` / `emax s i`: context._jump_count of stage i / the effective _max_jumps for it (workflow context, then stage
    context, then DEFAULT_MAX_JUMPS). *)
 From Coq Require Import List Bool Arith ZArith Lia.
@@ -151,9 +152,12 @@ Proof. exact closed_in_deps. Qed.
 (* ---------------------------------------------------------------------------------------------- *)
 (* 3. exactly which stages are re-armed / skipped                                                   *)
 
-(* C15_rearm_exact is the last conjunct of C15_budget_accept (stages after = jump_effect of stages before); here is what
-   jump_effect means per class of stage *)
+(* C15_rearm_exact is the last conjunct of C15_budget_accept (stages after = jump_effect of stages before, for EVERY stage,
+   synthetic children included: JumpM.jump_effect follows the four segments of the commit).  Here is what jump_effect
+   means per class of stage, for a stage that is not a synthetic child of a re-armed stage (rearm_kids: the children of
+   the re-armed downstream stages, of the source of a backward jump and of the target) *)
 Theorem C15_rearm_exact : forall s src i tg jctx k st,
+  mem_nat k (rearm_kids s i tg) = false ->
   let st' := jump_effect s src i tg jctx k st in
   (* target: re-armed, bypass flag set, jump context merged *)
   (k = tg -> s_status st' = NOT_STARTED /\ all_tasks NOT_STARTED st' /\ s_bypass st' = true /\
@@ -170,6 +174,37 @@ Theorem C15_rearm_exact : forall s src i tg jctx k st,
   (* every other stage: untouched *)
   (k <> tg -> k <> i -> ~ In k (closed_downstream s tg) -> mem_nat k (jump_skipped s i tg) = false -> st' = st).
 Proof. exact jump_effect_classes. Qed.
+
+(* such a stage is treated exactly as if there were no synthetic stages at all *)
+Theorem C15_rearm_exact_top : forall s src i tg jctx k st,
+  mem_nat k (rearm_kids s i tg) = false -> jump_effect s src i tg jctx k st = jump_effect_top s src i tg jctx k st.
+Proof. exact jump_effect_no_kid. Qed.
+
+(* _synthetic_reset_mutations: the synthetic children of a re-armed stage (a re-armed downstream stage, the source of a
+   backward jump, the target) are re-armed in the same commit: NOT_STARTED, every task NOT_STARTED.  For a child of the
+   target or of the source nothing else can interfere (its reset is the last write to it); a child of a re-armed
+   downstream stage could in principle also be in the skipped set or be the forward source, which come later in the
+   commit, hence the side condition *)
+Theorem C15_rearm_children : forall s src i tg jctx k p st,
+  In k (children s p) -> In p (rearm_parents s i tg) ->
+  (p = tg \/ (p = i /\ i <> tg) \/
+   (mem_nat k (jump_skipped s i tg) = false /\ (k <> i \/ jump_backward s i tg = true))) ->
+  rearmed (jump_effect s src i tg jctx k st).
+Proof. exact rearmed_children. Qed.
+
+(* who the re-armed parents are *)
+Theorem C15_rearm_parents : forall s i tg p,
+  In p (rearm_parents s i tg) <->
+  In p (jump_resets s i tg) \/ (p = i /\ i <> tg /\ jump_backward s i tg = true) \/ p = tg.
+Proof. exact rearm_parents_spec. Qed.
+
+(* and an ordinary child (not itself the source, the target, a re-armed downstream stage or a skipped stage) is reset
+   exactly once -- every stage has at most one parent, and each re-armed parent occurs once in the commit *)
+Theorem C15_child_reset_once : forall s src i tg jctx k p st,
+  In k (children s p) -> In p (rearm_parents s i tg) ->
+  k <> i -> k <> tg -> ~ In k (closed_downstream s tg) -> mem_nat k (jump_skipped s i tg) = false ->
+  jump_effect s src i tg jctx k st = reset_for_retry st.
+Proof. exact child_reset_once. Qed.
 
 (* who is in the skipped set *)
 Theorem C15_skipped_members : forall s i tg k,
@@ -242,6 +277,18 @@ Example C15_forward_jump_witness :
   jump_backward diamond5 0 4 = false /\ skip_candidates diamond5 0 4 = [1; 2; 3].
 Proof. vm_compute. repeat split. Qed.
 
+(* jump x synthetic stages: A has a before and an after stage (rows 2 and 3, created while A runs), B jumps back to A once:
+   both children run again in the second iteration, everything ends SUCCEEDED; at the jump both children are children of
+   the target and nothing else *)
+Definition jsyn_oracle : oracle := fun i _ n => match i, n with 1, 0 => RJump 0 | _, _ => RSucceed [] end.
+
+Example C15_children_rearmed_witness :
+  let s := drain jsyn_oracle 300 (step jsyn_oracle ex_syn Submit) in
+  statuses s = (SUCCEEDED, [SUCCEEDED; SUCCEEDED; SUCCEEDED; SUCCEEDED]) /\
+  map (fun i => count_execs s i 0) [0; 1; 2; 3] = [2; 2; 2; 2] /\ children s 0 = [2; 3] /\
+  rearm_parents s 1 0 = [1; 0] /\ rearm_kids s 1 0 = [2; 3] /\ w_queue s = [].
+Proof. vm_compute. repeat split. Qed.
+
 Print Assumptions C15_budget_accept.
 Print Assumptions C15_budget_count_written.
 Print Assumptions C15_budget_exhausted.
@@ -255,5 +302,9 @@ Print Assumptions C15_resettable_spec.
 Print Assumptions C15_dependents_spec.
 Print Assumptions C15_closed_in_dependents.
 Print Assumptions C15_rearm_exact.
+Print Assumptions C15_rearm_exact_top.
+Print Assumptions C15_rearm_children.
+Print Assumptions C15_rearm_parents.
+Print Assumptions C15_child_reset_once.
 Print Assumptions C15_skipped_members.
 Print Assumptions C15_canceled_noop.
